@@ -12,4 +12,4 @@ for d in /tmp/wt/C*/_seed /tmp/wt2/C*/_seed; do
     list="$list $d:$p:$L:$S"
   done
 done
-echo $list | tr ' ' '\n' | xargs -P 3 -I{} sh -c 'IFS=: ; set -- {}; tools/seedintake.py $1 $2 $3 --as $4 --props all > /tmp/matrix-$2-$4.log 2>&1; grep -E "CAUGHT-BY|NOT CONFIRMED" /tmp/matrix-$2-$4.log | sed "s/^/$2-$4 /"'
+echo $list | tr ' ' '\n' | xargs -P 3 -I{} sh -c 'x={}; IFS=:; set -- $x; IFS=" "; tools/seedintake.py $1 $2 $3 --as $4 --props all > /tmp/matrix-$2-$4.log 2>&1; grep -E "CAUGHT-BY|NOT CONFIRMED" /tmp/matrix-$2-$4.log | sed "s/^/$2-$4 /"'
